@@ -43,10 +43,10 @@ type Observation struct {
 	Tag    string            `json:"tag"`
 	Router string            `json:"router"`
 	Seq    int               `json:"seq"`
-	List   map[string]string `json:"list"`   // service -> "host path target state tls"
-	State  []SvcState        `json:"state"`  // parsed state file
-	StErr  string            `json:"st_err"` // state file unreadable / unparsable
-	Matrix map[string]string `json:"matrix"` // key -> "status:sorted set of serving targets[:location]"
+	List   map[string]string `json:"list"`            // service -> "host path target state tls"
+	State  []SvcState        `json:"state"`           // parsed state file
+	StErr  string            `json:"st_err"`          // state file unreadable / unparsable
+	Matrix map[string]string `json:"matrix"`          // key -> "status:sorted set of serving targets[:location]"
 	Certs  map[string]string `json:"certs,omitempty"` // SNI name -> "cert" | error text
 }
 
